@@ -43,6 +43,7 @@ class Sched:
         self.current = self.main
         self.closed = False
         self._installed = {}
+        self.default_net = None
 
     # ---- installation
     def install(self):
@@ -69,6 +70,22 @@ class Sched:
             mod = importlib.import_module(m)
             self._installed[m] = mod.threading
             mod.threading = Shim
+        # GeckoUdpSocket.__enter__ creates socket.socket(...) when it was given none: hand out
+        # mock sockets of the current virtual network instead
+        us = importlib.import_module("geckolib.driver.udp_socket")
+        self._real_socket_mod = us.socket
+
+        class SockShim:
+            AF_INET, SOCK_DGRAM, IPPROTO_UDP, SOL_SOCKET, SO_BROADCAST = socket.AF_INET, socket.SOCK_DGRAM, socket.IPPROTO_UDP, socket.SOL_SOCKET, socket.SO_BROADCAST
+            timeout = socket.timeout
+
+            @staticmethod
+            def socket(*a, **k):
+                if sched.default_net is None:
+                    raise OSError("no virtual network for an implicitly created socket")
+                return sched.default_net.socket()
+
+        us.socket = SockShim
         return self
 
     def uninstall(self):
@@ -76,6 +93,8 @@ class Sched:
 
         for m, orig in self._installed.items():
             importlib.import_module(m).threading = orig
+        if getattr(self, "_real_socket_mod", None) is not None:
+            importlib.import_module("geckolib.driver.udp_socket").socket = self._real_socket_mod
         _time.monotonic = REAL_MONOTONIC
 
     # ---- time and deliveries
@@ -262,6 +281,7 @@ class TNet:
         self.fault = None  # callable(record) -> list of delays or None
         self.log = []  # dicts: id, t, src, dst, data, verb, fate
         self._port = 50000
+        sched.default_net = self
 
     def socket(self, addr=None):
         if addr is None:
